@@ -1649,7 +1649,7 @@ class RunA:
 
 
 _SOAK_KINDS = ('flagchain', 'strings', 'keys', 'stamps', 'bodies',
-               'badutf8', 'badtag', 'deep')
+               'badutf8', 'badtag', 'deep', 'partial', 'dupkeys')
 
 
 def _soak_kind(spec, i):
@@ -1739,6 +1739,25 @@ def soak_frame(spec, i):
         elif kind == 'badtag':
             items += _ss('z%d' % i) + bytes([(0x01, 0x7a, 0xff, 0x51)[i % 4]
                                              ]) + b'\x00\x00'
+        payload = (60).to_bytes(2, 'big') + b'\x00\x00' + \
+            (i & 0xffffffff).to_bytes(8, 'big') + (0x2000).to_bytes(
+                2, 'big') + len(items).to_bytes(4, 'big') + items
+        return _frame_bytes(2, ch, payload)
+    if kind == 'partial':
+        # what a socket reader hands over while a large frame is still
+        # arriving: the header and the first part of the body (a distinct
+        # buffer every time)
+        size = 1000 + x % 60000
+        have = 1 + (x // 7) % min(size, 8000)
+        return bytes([3]) + ch.to_bytes(2, 'big') + \
+            size.to_bytes(4, 'big') + bytes([i % 251, x % 256]) * (have // 2)
+    if kind == 'dupkeys':
+        # a headers table in which one field name occurs hundreds of times
+        # (nothing a sane peer sends, nothing the grammar forbids)
+        k = 40 + x % 160 if i % 10 else 400 + x % 800
+        name = ('', 'k', 'x-dup', 'n%d' % (i % 7))[i % 4].encode()
+        ent = bytes([len(name)]) + name + (b'V' if i % 3 else b'b\x07')
+        items = ent * k
         payload = (60).to_bytes(2, 'big') + b'\x00\x00' + \
             (i & 0xffffffff).to_bytes(8, 'big') + (0x2000).to_bytes(
                 2, 'big') + len(items).to_bytes(4, 'big') + items
